@@ -67,12 +67,14 @@ Qed.
 
 Theorem c03_commit_accepted_l s u x nrev nfsize nmroot : reach s ->
   alookup u (upds s) = Some x -> acts_stored (stored (dbs s)) (u_acts x) = true ->
+  (forall c, alookup (u_cid x) (t1 (dbs s)) = Some c -> good1 (height s) c = true) ->
   snd (step s (Commit1 u nrev nfsize nmroot None)) = ORes (Ok tt) /\
   cache_get (fst (step s (Commit1 u nrev nfsize nmroot None))) (u_cid x) = u_roots x.
 Proof. intros H. apply (commit_accepted meta). now apply reach_inv. Qed.
 
 Theorem c03_commit_missing_l s u x nrev nfsize nmroot : reach s ->
   alookup u (upds s) = Some x -> acts_stored (stored (dbs s)) (u_acts x) = false ->
+  (forall c, alookup (u_cid x) (t1 (dbs s)) = Some c -> good1 (height s) c = true) ->
   step s (Commit1 u nrev nfsize nmroot None) = (s, ORes (Err EOther)).
 Proof. intros H. apply (commit_missing_rejected meta). now apply reach_inv. Qed.
 
